@@ -23,20 +23,35 @@ func interpMain(seed uint64, n int, outDir, gen string) error {
 	count := 0
 	seen := map[string]bool{}
 	distinct := 0
+	var product []string
+	if gen == "c04" {
+		product = c04Product()
+	}
+	c07 := &c07Gen{r: rnd.Fork("c07")}
 	for count < n {
 		var src string
-		switch gen {
-		case "src":
-			g := newSrcGen(rnd.Fork("p"))
-			src = g.program(1 + rnd.Intn(3))
-			for k, v := range g.kinds {
-				kinds[k] += v
-			}
-		default:
-			g := newSemGen(rnd.Fork("p"), gen)
-			src = g.program()
-			for k, v := range g.kinds {
-				kinds[k] += v
+		switch {
+		case count < len(product):
+			src = product[count]
+			kinds["product"]++
+		case gen == "c07" && count%2 == 0:
+			src = c07.program()
+			kinds["probe-tree"]++
+		}
+		if src == "" {
+			switch gen {
+			case "src":
+				g := newSrcGen(rnd.Fork("p"))
+				src = g.program(1 + rnd.Intn(3))
+				for k, v := range g.kinds {
+					kinds[k] += v
+				}
+			default:
+				g := newSemGen(rnd.Fork("p"), gen)
+				src = g.program()
+				for k, v := range g.kinds {
+					kinds[k] += v
+				}
 			}
 		}
 		cancelAt := -1
